@@ -98,6 +98,14 @@ def run_events(src_a, c, ids, cid, beh, script=None, np_seed=None, smooth=False,
             built["exc"] = "ScriptMismatch: " + str(ex)
         except Exception as ex:  # noqa
             built["exc"] = sd.exc_str(ex)
+    if built["exc"].startswith("ScriptMismatch") and script is not None:
+        # the implementation's RNG calls are not the modelled sequence (conformance drift, reported by the
+        # judge as DRIFT): the scripted outcome cannot be replayed - observe a run of the real generator instead
+        note = {"id": next(ids), "cid": cid, "beh": beh, "op": "ScriptDrift", "exc": "", "conc": G.name,
+                "why": built["exc"][:160]}
+        seed_ = (hash(json.dumps(script)) % 100000) if script else 0
+        return [note] + run_events(src_a, c, ids, cid, beh, script=None, np_seed=seed_, smooth=smooth,
+                                   accumulate=accumulate, src_obj=src_obj, inv=inv, G=G)
     for d in sh.calls:
         ev("Draw", **d)
     ev("Built", **built)
